@@ -276,6 +276,8 @@ structure BitCfg where
   field_python_type : Text := []
   /-- `bit_config.get('field_processor')`; an absent key (None) is the empty text: it equals no processor name -/
   field_processor : Text := []
+  /-- `bit_config.get('field_processor_config')` (the DE43 pattern); `none` = absent -/
+  field_processor_config : Option Text := none
   /-- `bit_config.get('field_date_format')`; `none` = absent -/
   field_date_format : Option Text := none
   deriving Repr
@@ -292,6 +294,7 @@ inductive PyVal
   | int (i : Int)
   | dec (d : Dec)
   | dt (d : DateTime)
+  | bytes (b : Bytes)
   deriving Repr
 
 /-- a `strptime` format made of the numeric directives %y %Y %m %d %H %M %S and literal characters; `none` for any other
@@ -433,12 +436,23 @@ def unpack3 (p q : Nat) (n : Int) (data : Bytes) : Outcome (Bytes × Bytes × By
   if n < 0 ∨ (data.length : Int) ≠ (p : Int) + (q : Int) + n then .escape .structError
   else .ok (data.take p, (data.drop p).take q, data.drop (p + q))
 
-/-- `int(v)` for a decoded value -/
+/-- `int(v)` for a decoded value (`int(b'12')` reads ASCII text; a byte above x'7F' is no part of a number) -/
 def pyvalInt (k : IntClasses) : PyVal → Outcome Int
   | .str t => intOfStr k t
   | .int i => .ok i
   | .dec d => decToInt d
   | .dt _ => .escape .typeError
+  | .bytes b => if b.all (· < 128) then intOfStr k b else .escape .valueError
+
+/-- a decoded value used as a text (slicing, `len`, a regular expression): TypeError for the other kinds -/
+def pyvalStr : PyVal → Outcome Text
+  | .str t => .ok t
+  | _ => .escape .typeError
+
+/-- a decoded value used as a bytes object -/
+def pyvalBytes : PyVal → Outcome Bytes
+  | .bytes b => .ok b
+  | _ => .escape .typeError
 
 /-- `range(a, b)` -/
 def range (a b : Int) : List Int := (List.range (b - a).toNat).map (fun (i : Nat) => a + (i : Int))
